@@ -241,7 +241,7 @@ func main() {
 	if *mutate != "" && (mutApplied == 0 || mutApplied != len(mutations[*mutate].edits)) {
 		fail("unknown or inapplicable mutation", *mutate)
 	}
-	for _, pk := range [][3]string{{"ttlv", "ttlv", "VerifResetPlanCaches"}, {".", "kmip", "VerifResetCaches"}, {"payloads", "payloads", "VerifResetCaches"}} {
+	for _, pk := range [][3]string{{"ttlv", "ttlv", "VerifResetPlanCaches"}, {".", "kmip", "VerifResetCaches"}, {"payloads", "payloads", "VerifResetCaches"}, {"kmipclient", "kmipclient", "VerifResetCaches"}, {"kmipserver", "kmipserver", "VerifResetCaches"}} {
 		added := filepath.Join(out, strings.ReplaceAll(pk[1], "/", "_")+"__zz_kmipverif.go")
 		if err := os.WriteFile(added, []byte(resetFile(filepath.Join(repo, pk[0]), pk[1], pk[2])), 0o644); err != nil {
 			fail(err)
